@@ -13,11 +13,14 @@ import (
 )
 
 // hctx is a context whose Done channel is closed by a model thread.
-type hctx struct{ done chan struct{} }
+type hctx struct {
+	done chan struct{}
+	err  error
+}
 
 func (c *hctx) Deadline() (time.Time, bool) { return time.Time{}, false }
 func (c *hctx) Done() <-chan struct{}       { return c.done }
-func (c *hctx) Err() error                  { return nil }
+func (c *hctx) Err() error                  { return c.err }
 func (c *hctx) Value(any) any               { return nil }
 
 var _ context.Context = (*hctx)(nil)
@@ -111,7 +114,7 @@ func timedScenario(c conf) schk.Scenario {
 				})
 			}
 			if c.timed && (c.helper == "SendContext" || c.helper == "RecvContext") {
-				s.Spawn("canceller", func() { vrt.Close(r.ctx.done); r.cancelled = true })
+				s.Spawn("canceller", func() { r.ctx.err = context.Canceled; vrt.Close(r.ctx.done); r.cancelled = true })
 			}
 			return r
 		},
@@ -331,6 +334,109 @@ func queuedScenario(c qconf) schk.Scenario {
 	}
 }
 
+// duoScenario: a Send* helper and a Recv* helper on the same channel, each with or without a
+// limit (its own timer / shared canceller), all interleavings. Conservation: the value was
+// reported sent iff the receiver reported it or it is still in the buffer.
+func duoScenario(sendH, recvH string, capN, prefill int, sendTimed, recvTimed bool) schk.Scenario {
+	name := fmt.Sprintf("duo/%s(limit=%v)+%s(limit=%v)/cap=%d/prefill=%d", sendH, sendTimed, recvH, recvTimed, capN, prefill)
+	return schk.Scenario{
+		Name: name, Bound: -1, RaceBound: -2, ExpectDeadlock: true,
+		Body: func(s *vrt.Sched) any {
+			r := &rec{ch: make(chan int, capN), ctx: &hctx{done: make(chan struct{})}}
+			for i := 0; i < prefill; i++ {
+				r.ch <- 1 + i
+				r.prefill = append(r.prefill, 1+i)
+			}
+			dur := func(t bool) time.Duration {
+				if t {
+					return time.Second
+				}
+				return 0
+			}
+			never := &hctx{done: make(chan struct{})}
+			ctxFor := func(t bool) context.Context {
+				if t {
+					return r.ctx
+				}
+				return never
+			}
+			s.Spawn("sender", func() {
+				if sendH == "SendTimeout" {
+					r.sendOK = chans.SendTimeout(r.ch, 42, dur(sendTimed))
+				} else {
+					r.sendOK = chans.SendContext(ctxFor(sendTimed), r.ch, 42)
+				}
+				r.done = true
+			})
+			s.Spawn("receiver", func() {
+				if recvH == "RecvTimeout" {
+					r.recvV, r.recvOK = chans.RecvTimeout(r.ch, dur(recvTimed))
+				} else {
+					r.recvV, r.recvOK = chans.RecvContext(ctxFor(recvTimed), (<-chan int)(r.ch))
+				}
+				r.closed = true // "receiver done"
+			})
+			if (sendTimed && sendH == "SendContext") || (recvTimed && recvH == "RecvContext") {
+				s.Spawn("canceller", func() { r.ctx.err = context.Canceled; vrt.Close(r.ctx.done); r.cancelled = true })
+			}
+			return r
+		},
+		Check: func(x *vrt.Exec, obs any) (*schk.Fail, string) {
+			r := obs.(*rec)
+			if x.Panic != "" {
+				return nil, "panic"
+			}
+			var left []int
+			for len(r.ch) > 0 {
+				left = append(left, <-r.ch)
+			}
+			out := fmt.Sprintf("senderDone=%v sent=%v receiverDone=%v recv=(%d,%v) left=%v deadlock=%v", r.done, r.sendOK, r.closed, r.recvV, r.recvOK, left, x.Deadlock)
+			count := func(v int) int {
+				n := 0
+				for _, x := range left {
+					if x == v {
+						n++
+					}
+				}
+				if r.closed && r.recvOK && r.recvV == v {
+					n++
+				}
+				return n
+			}
+			if (!r.done && sendTimed) || (!r.closed && recvTimed) {
+				return schk.Failf("blocked-despite-limit", "a helper with a limit is blocked forever: %s %v", out, x.Blocked), ""
+			}
+			if r.done {
+				if n := count(42); (r.sendOK && n != 1) || (!r.sendOK && n != 0) {
+					return schk.Failf("send-report-mismatch", "%s reported %v but the value is accounted for %d times: %s", sendH, r.sendOK, n, out), ""
+				}
+				if !r.sendOK && !sendTimed {
+					return schk.Failf("gave-up-without-limit", "%s returned false without a limit: %s", sendH, out), ""
+				}
+			} else if count(42) != 0 {
+				return schk.Failf("send-duplicated", "sender still blocked but its value was delivered: %s", out), ""
+			}
+			for _, v := range r.prefill {
+				if count(v) != 1 {
+					return schk.Failf("value-not-conserved", "prefilled value %d accounted for %d times: %s", v, count(v), out), ""
+				}
+			}
+			if r.closed {
+				if r.recvOK && r.recvV != 42 && r.recvV != 1 && r.recvV != 2 {
+					return schk.Failf("value-invented", "%s returned (%d,true): %s", recvH, r.recvV, out), ""
+				}
+				if !r.recvOK && r.recvV != 0 {
+					return schk.Failf("nonzero-with-false", "%s returned (%d,false): %s", recvH, r.recvV, out), ""
+				}
+				if !r.recvOK && !recvTimed {
+					return schk.Failf("gave-up-without-limit", "%s returned false on an open channel without a limit: %s", recvH, out), ""
+				}
+			}
+			return nil, out
+		},
+	}
+}
+
 func main() {
 	r := ev.Start("C19")
 	var scs []schk.Scenario
@@ -362,6 +468,19 @@ func main() {
 					for _, timed := range []bool{false, true} {
 						if h == "SendContext" || h == "RecvContext" || true {
 							scs = append(scs, timedScenario(conf{h, p, capN, pre, timed}))
+						}
+					}
+				}
+			}
+		}
+	}
+	for _, sh := range []string{"SendTimeout", "SendContext"} {
+		for _, rh := range []string{"RecvTimeout", "RecvContext"} {
+			for capN := 0; capN <= 2; capN++ {
+				for pre := 0; pre <= capN; pre++ {
+					for _, st := range []bool{false, true} {
+						for _, rt := range []bool{false, true} {
+							scs = append(scs, duoScenario(sh, rh, capN, pre, st, rt))
 						}
 					}
 				}
